@@ -280,6 +280,32 @@ def r3_in_place_gated(ctx, P, D):
     ctx.floor(R, "upward in-place grow sites checked for align_fits", n_grow_align, 1)
 
 
+def r3b_is_last_exact(ctx, P):
+    R = "C01.R3"
+    b = P.find_body("allocator_impl::is_last")
+    if not ctx.need(b is not None, R, "allocator_impl::is_last"):
+        return
+    eqs = []
+    for rb in b.return_blocks():
+        e = b.prov_place({"l": 0, "p": []}, b.term_site(rb))
+        for x in walk_expr(e):
+            if (x[0] == "call" and x[1].split("::")[-1] in ("eq", "ne")) or (x[0] == "bin" and x[1] in ("Eq", "Ne")):
+                eqs.append(x)
+    ctx.need(len(eqs) >= 2, R, f"two equality tests (up / down) in is_last (found {len(eqs)})")
+    for k, x in enumerate(eqs):
+        sides = [strip_ref(a) for a in (x[2] if x[0] == "call" else x[2:4])]
+        rounded = [sd for sd in sides if expr_mentions(sd, lambda y: y[0] == "call" and "align" in y[1].split("::")[-1])
+                   or expr_mentions(sd, lambda y: y[0] == "bin" and y[1] in ("BitAnd", "BitOr", "Rem", "Div", "Shr", "Shl"))]
+        has_pos = any(expr_mentions(sd, lambda y: y[0] == "call" and y[1].split("::")[-1] == "pos") for sd in sides)
+        has_ptr = any(mentions_param(sd, 2) for sd in sides)
+        ok = not rounded and has_pos and has_ptr
+        ctx.inst(R, b.path, ok, f"is_last compares the exact block boundary with the position: {show(x)[:120]}" if ok else
+                 f"is_last compares {show(x)[:140]}: a rounded boundary also matches when a shorter live block (a split-off part, "
+                 "a block allocated under a lowered minimum alignment) lies between the block and the position - that block is "
+                 "then overwritten by in-place growth or handed out again after deallocation", where=b.where(),
+                 site=f"is_last exact boundary #{k}")
+
+
 def r4_slow_path(ctx, P, D):
     R = "C01.R4"
     ctx.rule(R, "slow path: later chunks are reset before being offered and the one that satisfied the request becomes current; append only after the walk "
@@ -382,6 +408,7 @@ def run(ctx, progs):
         r4_slow_path(ctx, P, D)
         from . import c15
         c15.r4_commit_forms(ctx, P, D, R="C01.R5")
+        r3b_is_last_exact(ctx, P)
         r6r7_primitives(ctx, P)
         from . import c10
         c10.r1_min_aligned(ctx, P, D, R="C01.R8")
